@@ -493,6 +493,7 @@ fn emit_fn(cx: &mut Ctx, specs: &mut Specs, em: &mut Emitter, ex: &Extract, file
     rw.lift_prefix = { let p = match ex.opt("key") { Some(k) => k.replace("::", "__").replace('@', "_"), None => ex.path.rsplit('@').next().unwrap().replace("::", "__") }; if lifted { format!("{}__async", p) } else { p } };
     rw.typed_ctors = specs.sections.keys().filter_map(|k| k.strip_prefix("sig ").map(|s| s.to_string())).collect();
     rw.typed_caps = specs.sections.keys().filter_map(|k| k.strip_prefix("captype ").map(|s| s.to_string())).collect();
+    for inp in &f.sig.inputs { if let syn::FnArg::Typed(pt) = inp { if let syn::Pat::Ident(pi) = &*pt.pat { let mut ty = (*pt.ty).clone(); let mut lt = vec![]; rewrite::map_param_type(&mut ty, rw.cx, &mut lt); rw.local_types.insert(pi.ident.to_string(), tidy(&ty.to_token_stream().to_string())); } } }
     rw.gen_idents = {
         let mut gs: Vec<syn::Generics> = vec![]; if let Some(im) = &fd.im { gs.push(im.generics.clone()); } if let Some(g) = &tr_generics { gs.push(g.clone()); } gs.push(f.sig.generics.clone());
         let grefs: Vec<&syn::Generics> = gs.iter().collect();
@@ -668,7 +669,21 @@ fn emit_lifted(cx: &mut Ctx, specs: &mut Specs, em: &mut Emitter, gens: &[&syn::
     let sig = sig.trim();
     // `(params) -> ret`  ;  the ghost world parameter is appended unless the signature says `nowrld`
     let (params, ret) = match sig.rsplit_once("->") { Some((a, b)) if a.trim_end().ends_with(')') => (a.trim().to_string(), Some(b.trim().to_string())), _ => (sig.to_string(), None) };
-    let params = params.trim().trim_start_matches('(').trim_end_matches(')').to_string();
+    let mut params = params.trim().trim_start_matches('(').trim_end_matches(')').to_string();
+    // captures the spec's signature does not name (the code captures more than when the contract was written) become extra
+    // generic parameters, so that the body still type-checks and the ownership obligations on the constructor decide
+    let mut extra_gen: Vec<String> = vec![];
+    {
+        let mut names: Vec<String> = vec![]; let mut depth = 0i32; let mut cur = String::new();
+        for ch in params.chars() { match ch { '<' | '(' | '[' => { depth += 1; cur.push(ch); } '>' | ')' | ']' => { depth -= 1; cur.push(ch); } ',' if depth == 0 => { names.push(cur.clone()); cur.clear(); } _ => cur.push(ch) } }
+        if !cur.trim().is_empty() { names.push(cur); }
+        let names: Vec<String> = names.iter().map(|n| n.split(':').next().unwrap_or("").trim().trim_start_matches("mut ").to_string()).collect();
+        for (i, c) in lc.captures.iter().enumerate() { if c != "self" && !names.contains(c) {
+            let ty = match lc.cap_types.get(i).cloned().flatten() { Some(t) => t, None => { extra_gen.push(format!("HxCap{}", i)); format!("HxCap{}", i) } };
+            params = format!("{}: {}{}{}", c, ty, if params.trim().is_empty() { "" } else { ", " }, params); cx.fire("L1x");
+        } }
+    }
+    let gtxt_all = if extra_gen.is_empty() { gtxt_all.clone() } else { let g = gtxt_all.trim().trim_start_matches('<').trim_end_matches('>').to_string(); let mut all: Vec<String> = if g.is_empty() { vec![] } else { vec![g] }; all.extend(extra_gen); format!("<{}>", all.join(", ")) };
     let ghost = if specs.get(&format!("pure {}", lc.name)).is_some() { String::new() } else { format!("{}Tracked(w): Tracked<&mut World>", if params.trim().is_empty() { "" } else { ", " }) };
     em.raw(&format!("pub fn {}{}({}{}){}{}", lc.name, gtxt_all, params, ghost, match &ret { Some(r) => format!(" -> (r: {})", r), None => String::new() }, wtxt_all));
     if let Some(sp) = specs.get(&format!("fn {}", lc.name)) { em.raw_block(&sp, ""); }
